@@ -91,8 +91,9 @@ PairCfg paircfg_from_plan(const Plan &p) {
     PairCfg c;
     if (p.cfg.count("ver")) { c.version = ver_by_index(p.get("ver")); }
     // explicit version sets (bit i = ver_by_index(i))
-    if (p.cfg.count("vers_c")) { for (int i = 0; i < 5; i++) { if (p.get("vers_c") >> i & 1) { c.versions_c.push_back(ver_by_index(i)); } } }
-    if (p.cfg.count("vers_s")) { for (int i = 0; i < 5; i++) { if (p.get("vers_s") >> i & 1) { c.versions_s.push_back(ver_by_index(i)); } } }
+    // highest first: the library's default priority order
+    if (p.cfg.count("vers_c")) { for (int i = 4; i >= 0; i--) { if (p.get("vers_c") >> i & 1) { c.versions_c.push_back(ver_by_index(i)); } } }
+    if (p.cfg.count("vers_s")) { for (int i = 4; i >= 0; i--) { if (p.get("vers_s") >> i & 1) { c.versions_s.push_back(ver_by_index(i)); } } }
     int64_t suite = p.get("suite");
     if (suite) { c.suites.push_back((uint16_t) suite); }
     for (int i = 2; i <= 6; i++) { int64_t s = p.get("suite" + std::to_string(i)); if (s) { c.suites.push_back((uint16_t) s); } }
